@@ -40,7 +40,7 @@ def prefs_view(name):
             'expiry': int(p['key_expiration'].total_seconds()) if 'key_expiration' in p else None}
 
 
-OPS = ['add_uid_B', 'add_uid_img', 'add_sub_sign', 'add_sub_enc', 'recert_A_P2', 'recert_A_P3_same_second', 'recert_A_P2_generic_same_second', 'recert_B_P3', 'third_party_A', 'third_party_A_local',
+OPS = ['add_uid_B', 'add_uid_img', 'add_sub_sign', 'add_sub_enc', 'recert_A_P2', 'recert_A_P3_same_second', 'recert_A_P2_generic_same_second', 'recert_B_P3', 'third_party_A', 'third_party_A_local', 'third_party_A_keyid_only',
        'revoke_uid_A', 'revoke_sub0', 'revoke_key', 'add_revoker', 'del_uid_B', 'protect', 'derive_pub', 'copy', 'export_import_bin', 'export_import_asc',
        'direct_sig', 'direct_third_local']
 
@@ -67,7 +67,7 @@ class Model(object):
             return not any(s['kind'] == 'sign' for s in self.subs)
         if op == 'add_sub_enc':
             return not any(s['kind'] == 'enc' for s in self.subs)
-        if op in ('recert_A_P2', 'recert_A_P3_same_second', 'recert_A_P2_generic_same_second', 'third_party_A', 'third_party_A_local'):
+        if op in ('recert_A_P2', 'recert_A_P3_same_second', 'recert_A_P2_generic_same_second', 'third_party_A', 'third_party_A_local', 'third_party_A_keyid_only'):
             return 'A' in u
         if op == 'recert_B_P3':
             return 'B' in u
@@ -174,10 +174,13 @@ class World(object):
             u = self._uid(who)
             u |= key.certify(u, level, created=t, **prefs(pn))
             m.uids[who]['certs'].append((tt, pn))
-        elif op in ('third_party_A', 'third_party_A_local'):
+        elif op in ('third_party_A', 'third_party_A_local', 'third_party_A_keyid_only'):
             t = self.tick()
             u = self._uid('A')
             kw = {'exportable': False} if op == 'third_party_A_local' else {}
+            if op == 'third_party_A_keyid_only':
+                # the way older implementations certify: issuer named by key id only, no issuer-fingerprint subpacket
+                kw['include_issuer_fingerprint'] = False
             u |= self.other.certify(u, SignatureType.Casual_Cert, created=t, **kw)
             m.uids['A']['third'].append(op != 'third_party_A_local')
         elif op == 'revoke_uid_A':
